@@ -29,6 +29,7 @@ import (
 type vfC19GStep struct {
 	Sleep  time.Duration
 	Name   string
+	With   int  // -1, or a second client asking the same question in the same instant, with its own subnet
 	Client int  // index into vfC19GClients
 	ECS    bool // the client sends its /24 (or /56) as client subnet
 	Wire   bool
@@ -56,7 +57,7 @@ func vfC19GGen(rt *rapid.T) *vfC19GCase {
 			c.Steps = append(c.Steps, vfC19GStep{Sleep: time.Duration(rapid.SampledFrom([]int{1, 6, 40, 400}).Draw(rt, "sleepsec")) * time.Second})
 			continue
 		}
-		c.Steps = append(c.Steps, vfC19GStep{Name: rapid.SampledFrom([]string{"www.geo.test.", "www.geo.test.", "alias.test.", "in.geo.test."}).Draw(rt, "name"), Client: rapid.IntRange(0, len(vfC19GClients)-1).Draw(rt, "client"), ECS: rapid.IntRange(0, 2).Draw(rt, "ecs") != 0,
+		c.Steps = append(c.Steps, vfC19GStep{Name: rapid.SampledFrom([]string{"www.geo.test.", "www.geo.test.", "alias.test.", "in.geo.test."}).Draw(rt, "name"), With: rapid.SampledFrom([]int{-1, -1, 0, 2, 3}).Draw(rt, "with"), Client: rapid.IntRange(0, len(vfC19GClients)-1).Draw(rt, "client"), ECS: rapid.IntRange(0, 2).Draw(rt, "ecs") != 0,
 			Wire: rapid.Bool().Draw(rt, "wire"), CD: rapid.IntRange(0, 7).Draw(rt, "cd") == 0})
 	}
 	return c
@@ -133,64 +134,92 @@ func vfC19GRun(t *testing.T, dir string, c *vfC19GCase) (violation string, trace
 				trace = append(trace, fmt.Sprintf("t=%s sleep %s", time.Since(vfworld.Epoch), st.Sleep))
 				continue
 			}
-			client := netip.MustParseAddr(vfC19GClients[st.Client])
-			q := &vfgen.QuerySpec{ID: uint16(900 + i), Name: st.Name, Qtype: dns.TypeA, Qclass: dns.ClassINET, RD: true, CD: st.CD, EDNS: true, UDPSize: 1232}
-			var sent netip.Prefix
-			if st.ECS {
-				bits, fam := 24, uint16(1)
-				if client.Is6() {
-					bits, fam = 56, 2
+			// one client, or two released in the same instant (the second from another network with its own subnet):
+			// their upstream lookups overlap, their answers must not
+			type asked struct {
+				client netip.Addr
+				ecs    bool
+				sent   netip.Prefix
+				rep    vfReply
+			}
+			mk := func(ci int, ecs bool, id uint16) (*vfgen.QuerySpec, *asked) {
+				a := &asked{client: netip.MustParseAddr(vfC19GClients[ci]), ecs: ecs}
+				q := &vfgen.QuerySpec{ID: id, Name: st.Name, Qtype: dns.TypeA, Qclass: dns.ClassINET, RD: true, CD: st.CD, EDNS: true, UDPSize: 1232}
+				if ecs {
+					bits, fam := 24, uint16(1)
+					if a.client.Is6() {
+						bits, fam = 56, 2
+					}
+					a.sent, _ = a.client.Prefix(bits)
+					q.Options = []vfgen.OptionSpec{{Kind: "subnet", Code: fam, A: uint8(bits), Addr: a.sent.Addr().String()}}
 				}
-				sent, _ = client.Prefix(bits)
-				q.Options = []vfgen.OptionSpec{{Kind: "subnet", Code: fam, A: uint8(bits), Addr: sent.Addr().String()}}
+				return q, a
 			}
 			n0 := rw.Net.Count()
-			rep := rw.Ask(q, "udp", net.IP(client.AsSlice()), st.Wire)
+			q1, a1 := mk(st.Client, st.ECS, uint16(900+i))
+			all := []*asked{a1}
+			if st.With >= 0 && st.With != st.Client {
+				q2, a2 := mk(st.With, true, uint16(950+i))
+				all = append(all, a2)
+				done := make(chan struct{})
+				go func() {
+					a2.rep = rw.Ask(q2, "udp", net.IP(a2.client.AsSlice()), !st.Wire)
+					close(done)
+				}()
+				a1.rep = rw.Ask(q1, "udp", net.IP(a1.client.AsSlice()), st.Wire)
+				<-done
+				stats["two-clients-at-once"]++
+			} else {
+				a1.rep = rw.Ask(q1, "udp", net.IP(a1.client.AsSlice()), st.Wire)
+			}
 			synctest.Wait()
-			line := fmt.Sprintf("t=%s %s client %s ecs=%v cd=%v -> ", time.Since(vfworld.Epoch), st.Name, client, st.ECS, st.CD)
-			if rep.Msg == nil || rep.Msg.Rcode != dns.RcodeSuccess {
-				trace = append(trace, line+"no usable reply")
-				continue
-			}
-			var got net.IP
-			for _, rr := range rep.Msg.Answer {
-				if a, ok := rr.(*dns.A); ok {
-					got = a.A
+			for _, a := range all {
+				client, rep := a.client, a.rep
+				line := fmt.Sprintf("t=%s %s client %s ecs=%v cd=%v -> ", time.Since(vfworld.Epoch), st.Name, client, a.ecs, st.CD)
+				if rep.Msg == nil || rep.Msg.Rcode != dns.RcodeSuccess {
+					trace = append(trace, line+"no usable reply")
+					continue
 				}
-			}
-			trace = append(trace, line+fmt.Sprintf("%v (upstream packets %d)", got, rw.Net.Count()-n0))
-			if opt := rep.Msg.IsEdns0(); opt != nil {
-				for _, o := range opt.Option {
-					if _, ok := o.(*dns.EDNS0_SUBNET); ok {
-						fail("step %d: the reply to client %s carries a client-subnet option", i, client)
+				var got net.IP
+				for _, rr := range rep.Msg.Answer {
+					if x, ok := rr.(*dns.A); ok {
+						got = x.A
 					}
 				}
-			}
-			if got == nil {
-				continue
-			}
-			stats["answered"]++
-			pf, tailored := tailoredFor[got.String()]
-			if !tailored {
-				stats["global-answer"]++
-				continue
-			}
-			stats["tailored-answer"]++
-			if rw.Net.Count() == n0 {
-				stats["tailored-answer-from-cache"]++
-			}
-			scope := int(got[2])
-			if scope > pf.Bits() {
-				scope = pf.Bits() // never more specific than what was forwarded
-			}
-			aud, _ := pf.Addr().Prefix(scope)
-			// "inside that scope": by the subnet the client sent, or by its own address when it sent none
-			where := client
-			if st.ECS {
-				where = sent.Addr()
-			}
-			if !aud.Contains(where) {
-				fail("step %d: client %s (client subnet sent: %v) was served %v, the answer the authority tailored for %s and scoped to /%d - the client is outside %s", i, client, st.ECS, got, pf, got[2], aud)
+				trace = append(trace, line+fmt.Sprintf("%v (upstream packets in this step %d)", got, rw.Net.Count()-n0))
+				if opt := rep.Msg.IsEdns0(); opt != nil {
+					for _, o := range opt.Option {
+						if _, ok := o.(*dns.EDNS0_SUBNET); ok {
+							fail("step %d: the reply to client %s carries a client-subnet option", i, client)
+						}
+					}
+				}
+				if got == nil {
+					continue
+				}
+				stats["answered"]++
+				pf, tailored := tailoredFor[got.String()]
+				if !tailored {
+					stats["global-answer"]++
+					continue
+				}
+				stats["tailored-answer"]++
+				if rw.Net.Count() == n0 {
+					stats["tailored-answer-from-cache"]++
+				}
+				scope := int(got[2])
+				if scope > pf.Bits() {
+					scope = pf.Bits() // never more specific than what was forwarded
+				}
+				aud, _ := pf.Addr().Prefix(scope)
+				// "inside that scope": by the subnet the client sent, or by its own address when it sent none
+				where := client
+				if a.ecs {
+					where = a.sent.Addr()
+				}
+				if !aud.Contains(where) {
+					fail("step %d: client %s (client subnet sent: %v) was served %v, the answer the authority tailored for %s and scoped to /%d - the client is outside %s", i, client, a.ecs, got, pf, got[2], aud)
+				}
 			}
 		}
 	})
